@@ -86,6 +86,27 @@ def well_formed(b):
         return False
 
 
+def record_boundaries(b):
+    """offsets at which an object file may end and still consist of whole records (0, after the generation field, after each record)"""
+    import struct
+    out, pos = {0, 8}, 8
+    try:
+        while pos < len(b):
+            k = struct.unpack(">Q", b[pos + 8:pos + 16])[0]
+            pos += 16
+            if k == 1:
+                pos += 1
+            elif k == 2:
+                pos += 8
+            else:
+                ln = struct.unpack(">Q", b[pos:pos + 8])[0]
+                pos += 8 + (ln * 8 if k == 5 else ln)
+            out.add(pos)
+    except struct.error:
+        pass
+    return out
+
+
 def read_tree(root):
     out = {}
     for r, d, files in os.walk(root):
@@ -119,6 +140,105 @@ class C16(Check):
     def setup(self, ctx):
         ctx.shared["tpl"] = Template(ctx.env, ntokens=2)
         ctx.shared["stage"] = Stage(ctx.env, ctx.shared["tpl"], reuse=False)
+
+
+    # -- the loader against every truncation of an object file (deterministic, no generator) ----------------------------------------------
+    def cut_setup(self, ctx):
+        """the scenario of the truncation sweep -> (base directory, {label: object file}, full view, pins, {label: record boundaries})"""
+        if "cut_setup" in ctx.shared:
+            return ctx.shared["cut_setup"]
+        stage = ctx.shared["stage"]
+        tpl = ctx.shared["tpl"]
+        w = stage.fresh()
+        t0, t1 = tpl.tokens
+        pins = {t0.label: ([t0.so_pin], [t0.user_pin]), t1.label: ([t1.so_pin], [t1.user_pin])}
+        s = w.C_OpenSession(slot=t0.slot, flags=RW)["h"]
+        w.C_Login(s=s, user=K.CKU_USER, pin=hx(t0.user_pin))
+        big = bytes((7 + i * 7) & 0xFF for i in range(5000))
+        made = {}
+        for label, tpl_ in (("A-private-aes", T(("CKA_CLASS", "CKO_SECRET_KEY"), ("CKA_KEY_TYPE", "CKK_AES"), ("CKA_VALUE", bytes(range(32))), ("CKA_TOKEN", True), ("CKA_PRIVATE", True),
+                                               ("CKA_SENSITIVE", False), ("CKA_EXTRACTABLE", True), ("CKA_ID", b"id-of-the-key"))),
+                            ("B-data", T(("CKA_CLASS", "CKO_DATA"), ("CKA_TOKEN", True), ("CKA_PRIVATE", False), ("CKA_VALUE", b"bystander"))),
+                            ("C-cert", T(*base_template("cert_x509", 3)) + T(("CKA_TOKEN", True), ("CKA_PRIVATE", False), ("CKA_ISSUER", big), ("CKA_ID", b"id-of-the-cert")))):
+            before = set(read_tree(stage.sb.tokendir))
+            r = w.C_CreateObject(s=s, tpl=tpl_ + T(("CKA_LABEL", label.encode())))
+            if r["rv"] != 0:
+                raise RuntimeError("cut sweep setup: %s" % K.rvname(r["rv"]))
+            made[label] = [f for f in set(read_tree(stage.sb.tokendir)) - before if f.endswith(".object")][0]
+        w.C_Finalize()
+        stage.w.close()
+        stage.w = None
+        base = os.path.join(ctx.env.root, "cutbase")
+        shutil.rmtree(base, ignore_errors=True)
+        shutil.copytree(stage.sb.tokendir, base)
+        full = self.view_of_tree(ctx, base, pins)
+        if full is None or set(full[t0.label]["objs"]) != {"A-private-aes", "B-data", "C-cert"}:
+            raise RuntimeError("cut sweep setup: unexpected view %s" % (full and list(full[t0.label]["objs"])))
+        bounds = {label: record_boundaries(open(os.path.join(base, made[label]), "rb").read()) for label in ("A-private-aes", "C-cert")}
+        ctx.shared["cut_setup"] = (base, made, full, pins, bounds)
+        return ctx.shared["cut_setup"]
+
+    def judge_cut(self, ctx, label, c):
+        base, made, full, pins, bounds = self.cut_setup(ctx)
+        t0, t1 = ctx.shared["tpl"].tokens
+        prog = {"cut": [label, c]}
+        img = os.path.join(ctx.env.root, "cutimg")
+        shutil.rmtree(img, ignore_errors=True)
+        shutil.copytree(base, img)
+        n = os.path.getsize(os.path.join(img, made[label]))
+        with open(os.path.join(img, made[label]), "r+b") as f:
+            f.truncate(c)
+        try:
+            view = self.view_of_tree(ctx, img, pins)
+        except WorkerDied as d:
+            return Violation("object file of %s cut at byte %d: the recovering process died (%s %s)" % (label, c, d.how, d.detail), prog)
+        ctx.steps += 1
+        if view is None:
+            return Violation("object file of %s cut at byte %d: C_Initialize fails" % (label, c), prog)
+        for lab in (t0.label, t1.label):
+            got, want = view.get(lab), full.get(lab)
+            if got is None or got["so"] != want["so"] or got["user"] != want["user"]:
+                return Violation("object file of %s cut at byte %d: token %s / its PINs are affected" % (label, c, lab), prog)
+            for name, attrs in (got["objs"] or {}).items():
+                if want["objs"].get(name) == attrs and name != label:
+                    continue
+                # (an object that looks complete in the attributes of this view lacks later records only: judged like any other partial object)
+                # the cut object shows up (under its label, or label-less)
+                # the listed finding: the loader takes "no further attribute TYPE can be read" for the end of the object - a cut on a record
+                # boundary or inside the 8-byte type field that follows it (the generation field counts as the first boundary)
+                if any(b_ <= c <= b_ + 7 for b_ in bounds[label]):
+                    if ctx.known({"file": "object", "state": "in_flight", "deviation": "object_in_flight_partial_or_lost", "call": "create_small"}):
+                        ctx.label("cut_on_record_boundary_partial_object")
+                        continue
+                return Violation("object file of %s cut at byte %d of %d (inside a record: not on a record boundary nor in the type field after one): a fresh process returns it as a valid object %s with "
+                                 "attributes %s" % (label, c, n, name, {K.name("CKA", int(k)): str(v)[:24] for k, v in attrs.items()}), prog)
+            missing = [n_ for n_ in want["objs"] if n_ not in (got["objs"] or {}) and n_ != label]
+            if missing:
+                return Violation("object file of %s cut at byte %d: other objects are gone: %s" % (label, c, missing), prog)
+        ctx.label("cut_cells")
+        ctx.case(prog, True, ["cut"])
+        return None
+
+    def extra(self, ctx, tier, shard, nshards):
+        """A crash can cut an object file anywhere (the stdio buffer spills at arbitrary offsets).  For two object files of a fixed scenario - the
+        private AES key (every cut position) and the multi-buffer certificate (every position of the first 400 bytes and around the 4096-byte
+        spill, every 37th elsewhere) - the truncated file is put in place and a fresh process opens the token: the object must be ABSENT, unless
+        the cut falls on a record boundary (then the listed finding KF-C16-01 applies: a valid object with missing attributes).  Every other
+        object and both PINs must be intact."""
+        base, made, full, pins, bounds = self.cut_setup(ctx)
+        cells = []
+        for label in ("A-private-aes", "C-cert"):
+            n = os.path.getsize(os.path.join(base, made[label]))
+            pos = range(n) if n <= 1500 else sorted(set(range(400)) | set(range(4070, 4130)) | set(range(0, n, 37)))
+            cells += [(label, c) for c in pos if c < n]
+        ctx.extra["cut_cells_total"] = len(cells) if shard == 0 else 0
+        for i, (label, c) in enumerate(cells):
+            if i % nshards != shard:
+                continue
+            v = self.judge_cut(ctx, label, c)
+            if v is not None:
+                return v
+        return None
 
     def budget(self, tier):
         return {"examples": 320, "shards": 16} if tier == "quick" else {"examples": 4800, "shards": 16}
@@ -171,6 +291,11 @@ class C16(Check):
         return out
 
     def run_program(self, ctx, prog):
+        if isinstance(prog, dict) and prog.get("cut"):
+            v = self.judge_cut(ctx, prog["cut"][0], prog["cut"][1])
+            if v is not None:
+                raise v
+            return
         stage = ctx.shared["stage"]
         tpl = ctx.shared["tpl"]
         w = stage.fresh()
@@ -364,14 +489,15 @@ class C16(Check):
         # the call was in the middle of (one of its several) rewrites of that file.  The call writes only these files.
         prefix_state = {f: True for f in inflight}
         # The registered findings (an object is built by several transactions, each a rewrite in place: truncate, then write) explain exactly
-        # two shapes of an in-flight file: a complete, well-formed intermediate version (some attributes not stored yet), or a PROPER PREFIX
+        # two shapes of an in-flight file: for a file the call CREATES a complete, well-formed intermediate version (some attributes not stored
+        # yet; a file that exists before the call is rewritten by one transaction and has no intermediate versions), or a PROPER PREFIX
         # (empty included) of a version of that file that the call goes on to complete - apart from the 8-byte generation field, which each
         # version counts up.  Anything else in flight (new content followed by a stale tail, a hole, mixed versions) is not that finding.
         if later is not None:
             for f, b in inflight.items():
                 if b is None:
                     continue
-                prefix_state[f] = any(lt.get(f) is not None and len(lt[f]) > len(b) and lt[f][8:].startswith(b[8:]) for lt in later) or well_formed(b)
+                prefix_state[f] = any(lt.get(f) is not None and len(lt[f]) > len(b) and lt[f][8:].startswith(b[8:]) for lt in later) or (f not in old_tree and well_formed(b))
         sb = ctx.env.sandbox()
         shutil.rmtree(sb.tokendir)
         shutil.copytree(imgdir, sb.tokendir)
